@@ -624,11 +624,12 @@ func createTimeFunctions() {
 		DontCache: true,
 	})
 	MustCreate(object.Extension{
-		Name:     "sleep",
-		MinArgs:  1,
-		MaxArgs:  1,
-		ArgTypes: []object.Type{object.FLOAT},
-		Help:     "in seconds",
+		Name:      "sleep",
+		MinArgs:   1,
+		MaxArgs:   1,
+		ArgTypes:  []object.Type{object.FLOAT},
+		Help:      "in seconds",
+		DontCache: true, // the wait is the point: a memoized caller would return at once the second time.
 		Callback: func(st any, _ string, args []object.Object) object.Object {
 			s := st.(*eval.State)
 			durSec := args[0].(object.Float).Value
